@@ -21,9 +21,16 @@ PROPS_PRE = {
 }
 
 PROPS = dict(PROPS_PRE)
-for _pid, _scn in [('C04','C04'),('C09','C09'),('C08','C08'),('C14','C14'),('C05','C05'),('C06','C06'),('C07','C07'),('C10','C10'),('C11','C11'),('C12','C12'),('C15','C15')]:
+for _pid, _scn in [('C18','C18'),('C04','C04'),('C09','C09'),('C08','C08'),('C14','C14'),('C05','C05'),('C06','C06'),('C07','C07'),('C10','C10'),('C11','C11'),('C12','C12'),('C15','C15')]:
     PROPS[_pid] = dict(level='exploration', rule=NONTRIVIAL, assumptions=COMMON_ASSUMPTIONS,
                        legs=legs(_scn, 6000, 60, 400000, 1500), reports=[_pid])
+
+def add_leg(pid, scn, q_runs, q_budget, t_runs, t_budget):
+    PROPS[pid]['legs']['quick'].append(dict(scenario=scn, runs=q_runs, budget=q_budget, tag=scn))
+    PROPS[pid]['legs']['thorough'].append(dict(scenario=scn, runs=t_runs, budget=t_budget, tag=scn))
+
+# directed, seeded witness scenarios that stay part of the checks
+add_leg('C18', 'D_deadline_rearm', 1500, 30, 60000, 300)
 
 SIM_NOTE = ("Trusted base: the instrumenter and simulator runtime under /verif (scheduling points at every lock/cond/channel/select/goroutine start; "
             "seeded select and map-iteration order), Go 1.26.8 testing/synctest, the harness' own decoder and reference models. "
@@ -67,6 +74,29 @@ MANIFEST_TEXT.update({
                 note=SIM_NOTE),
 })
 
+MANIFEST_TEXT.update({
+    'C04': dict(design_ref='DESIGN.md §5 C04',
+                technique='deterministic simulation: handshake under bounded packet faults (all role / option combinations, INIT collision, SNAP), agreement oracle on Metadata and wire, stale-packet replay, silent peer with the T1 schedule as bound',
+                text='Seeded exploration of client/server, client/client and SNAP handshakes with loss/dup/delay confined to the first packets of each direction (so every retransmitted packet keeps a chance), followed by Metadata agreement, verification-tag and checksum checks on the wire and a 20-message exchange while captured handshake packets are replayed; silent-peer and closed-server-transport runs are bounded by the RFC 9260 T1 schedule. Evidence, not proof.',
+                note=SIM_NOTE),
+    'C08': dict(design_ref='DESIGN.md §5 C08',
+                technique='deterministic simulation: Shutdown at seeded points of a transfer (one-sided and crossed), loss / long partitions during the shutdown sequence, delivery + rejection + closure oracle',
+                text='Seeded exploration: Shutdown is called immediately, mid-transfer or after the writers finished, one-sided or crossed with offsets, under loss/dup/reorder and partitions of up to 400 s; when it returns nil every accepted write must have been read by the peer, writes invoked in a non-established state must be rejected without trace, both ends must reach closed (the second at the latest when its transport closes) and then stay silent for 10 virtual minutes. Evidence, not proof.',
+                note=SIM_NOTE),
+    'C09': dict(design_ref='DESIGN.md §5 C09',
+                technique='deterministic simulation: crash-point injection (Close / Abort / transport read or write error / conn.Close / concurrent Close) at a wire event or scheduling step drawn from a fault-free reference pass of the same seed',
+                text='Two-pass seeded exploration: a fault-free pass of the seed numbers its wire events and scheduling steps, the second pass injects one teardown fault at a drawn event or step into handshake, bulk transfer (blocked readers, blocking writers, read deadlines, short reads), stream resets or graceful shutdown in progress; every call blocked on the endpoint must return within the bound, the association must be closed, its task census empty, repeated Close harmless, a delivered ABORT must close the peer with the cause, and nothing may run or be written during 10 idle minutes. Evidence, not proof.',
+                note=SIM_NOTE),
+    'C14': dict(design_ref='DESIGN.md §5 C14',
+                technique='deterministic simulation: close / re-open cycles of stream identifiers under faults, EOF-after-data oracle per incarnation, wire check of fresh sequence numbers',
+                text='Seeded exploration of up to 5 close/re-open cycles on several streams (initiator opens, responder accepts and closes after EOF) under loss, duplication and reordering of DATA and RECONFIG; each reader must see every message written before Close and only then EOF, writes after Close must fail without trace, and each new incarnation must start at SSN/MID 0. One recorded known finding (KF6). Evidence, not proof.',
+                note=SIM_NOTE),
+    'C18': dict(design_ref='DESIGN.md §5 C18',
+                technique='deterministic simulation: rejected / failing calls mixed into transfers (oversize, empty, write deadlines in blocking mode), short-buffer reads, read deadlines placed at the instant of delivery with seeded scheduling of timer goroutine vs reader',
+                text='Seeded exploration in which writers mix oversize writes (also after SetMaxMessageSize), empty writes and blocking writes with expiring deadlines among good writes, and readers use short buffers and read deadlines (armed, expired, cleared, re-armed); rejected calls must return the documented error with n=0 and leave no trace on the wire or at the peer, a blocking write may only return once all earlier data is on the wire, deadline reads must return at the deadline. A directed seeded leg keeps the fixed stale-deadline race (F6) under watch. Evidence, not proof.',
+                note=SIM_NOTE),
+})
+
 # properties whose check is not built yet (kept current as the work proceeds)
 NOT_BUILT = {pid: 'check not built yet in this session (work in progress, see DESIGN.md §10)' for pid in
-             ['C03','C04','C08','C09','C13','C14','C15','C16','C17','C18','C19','C20']}
+             ['C03','C13','C15','C16','C17','C19','C20']}
